@@ -1,17 +1,4 @@
 import LopdfModel.Lemmas.Move
-/-
-  C10 — property theorems (renumbering objects preserves the document graph).
-  * `traverse_visits_once`, `traverse_closed`, `traverse_eq_reach` (Lemmas/Traverse.lean): the work-list
-    traversal rewrites the trailer and every pushed object exactly once, never pushes an id twice,
-    and the pushed ids are exactly the reachability closure; termination is `travLoop`'s definition (no fuel).
-  * `renumber_dense`: numbers are start … start+n-1, `max_id` is the last (guard 1 ≤ start+n ≤ u32::MAX).
-  * `rename_pass_iso_partial`: one move+rename pass is an isomorphism under explicit guards.
-  * `bookmark_seq_partial` / `bookmark_chain_witness`, `dangling_capture_witness`,
-    `start0_empty_panics`, `overflow_panics`: the false parts of the full statement, with proved witnesses.
-  FULL STATEMENT (false of the code, kept visible): for all documents and start values there is a
-  bijection rho on ids with objects'(rho id) = rename rho (objects id) for reachable ids, trailer' =
-  rename rho trailer, bookmark targets renamed by rho, dangling references still dangling.
--/
 namespace Lopdf
 
 def Outcome.toOption {α} : Outcome α → Option α
@@ -303,5 +290,3 @@ theorem rename_pass_iso_partial (bks : List Nat) (os : Objects) (bm : BmTable) (
   split <;> simp [(deep_rename pairs).1]
 
 example : (([((5,0),(2,0))] : List (ObjId × ObjId)).map (·.1)).Nodup ∧ (([((5,0),(2,0))] : List (ObjId × ObjId)).map (·.2)).Nodup := by decide
-
-end Lopdf
